@@ -37,7 +37,8 @@ Earlier rounds already produced the following changes for this property. Use a D
 {chr(10).join(earlier) if earlier else '(none)'}
 
 Environment: every shell command needs `export GOPROXY=off GOFLAGS=-mod=mod` first (no network; the Go toolchain switches to the
-cached go1.26.5 automatically; do not set GOSUMDB or GOTOOLCHAIN). `go test -race` works. 16 cores are shared with other jobs, so
+cached go1.26.5 automatically; do not set GOSUMDB or GOTOOLCHAIN). `go test -race` works. NEVER use `git stash` (the stash is shared with
+other jobs working in sibling worktrees): use `git diff > file`, `git checkout -- .` and `git apply` instead. 16 cores are shared with other jobs, so
 run only the packages you need while iterating.
 
 Deliverables, all inside {wt}/SEEDED/ (create the directory):
